@@ -15,43 +15,43 @@ CHECKS = {
             "Real executions for 3 styles x 2 utf8 settings x 9 row separators per generated value set; every row is read back by an independent strict reader, layout predicates are evaluated on the raw bytes, and the output is fed back for the fixpoint.",
             "Trusts the strict reader and the pretty-layout checker; fixpoint demanded for whitespace separators and the identity pipeline only; open known findings astral-escape and nonfinite-number are matched by exact defect models.", "5 C02"),
     "C06": ("exploration", "runtime monitoring: differential oracle (noisy run vs noise-free run of the same build) plus per-policy stream predicates at the stdout/stderr/Result boundary",
-            "Each generated noisy stream (garbage tokens in the gaps, a value cut off by the end of the input, strings that look like JSON syntax; 9 pipelines incl. --only-objects-and-arrays) is run under all four policies and compared with the run on the noise-free stream; panic policy additionally bounded by bytes pulled from the instrumented reader.",
+            "Each generated noisy stream (garbage tokens in the gaps, a value cut off by the end of the input, malformed / unrepresentable number tokens, strings that look like JSON syntax; 13 pipelines incl. --only-objects-and-arrays and &index readers; the stream also as a file with a long / non-ASCII name or inside a nested directory) is run under all four policies and compared with the run on the noise-free stream; panic policy additionally bounded by bytes pulled from the instrumented reader.",
             "Garbage tokens contain no CR/LF and no LF directly follows a cut-off value, so an error: line is one line; the text and position of error lines are not demanded (the property does not fix them).", "5 C06"),
     "C16": ("fault_enumeration", "runtime monitoring with fault injection: hard read error at every input offset and hard write error at every output offset of each generated run, observed at the instrumented Read/Write boundary",
-            "For every generated input the fault point ranges over all byte offsets of the input (read) and of the fault-free output (write, also stderr), each a real execution; the oracle demands Err, no panic, no read after the error and prefix-of-fault-free output.",
+            "For every generated input the fault point ranges over all byte offsets of the input (read) and of the fault-free output (write, also stderr), each a real execution; the oracle demands Err, no panic, no read after the error and prefix-of-fault-free output; error kinds vary with the offset; write faults are also transient (one failing call, then the sink takes bytes again: no write call may follow) and also hit runs whose input is a file in a directory argument.",
             "Inputs, pipelines and policies are sampled (exhaustive over offsets, not over inputs); file read faults are not injectable at this boundary.", "5 C16"),
     "C17": ("exploration", "runtime monitoring: differential oracle over delivery forms (read schedules with Interrupted, stdin vs file, 1-4 files) plus a span model from the generator for the input-context selectors",
-            "Each generated stream is delivered in five forms and as file partitions (also cut inside a value); rows carrying all seven input-context selectors are compared across forms and against byte spans known to the generator.",
+            "Each generated stream is delivered in five forms and as file partitions (also cut inside a value); rows carrying all seven input-context selectors are compared across forms and against byte spans known to the generator; selectors also in their lenient spellings and each alone; string literals with raw control characters; file names with commas, blanks, leading dots, in sub-directories, named twice.",
             "(line, column) is mapped to a byte offset as line start + column - 1; chunking inside BufReader<File> cannot be controlled from the boundary.", "5 C17"),
     "C08": ("exploration", "runtime monitoring: metamorphic/differential oracle (limited run = slice of the unlimited run of the same build), exhaustive over all small streams",
             "Every stream of length <= 4 (quick) / 5 (thorough) over 4 keys x all S,T in 0..6 x 24 pipelines is executed for real and compared with the slice of the unlimited run; random histories up to 40 rows add unique/filter/split/select; a share of all units delivers the records as files instead of stdin.",
             "The unlimited run of the same build is the reference, so a defect that affects both runs identically is C03/C07's business; group/merge reference is rebuilt in Python from the unlimited rows.", "5 C08"),
     "C09": ("exploration", "runtime monitoring: differential oracle (grouped/merged run vs rows of the ungrouped run of the same build) on generated histories",
-            "Each generated history is run with and without --group-by/--merge; the collection must be exactly one row built from the rows the ungrouped pipeline prints (first-seen key order, arrival order, empty collection on no rows); a quarter of the units deliver the records as 1-3 files.",
+            "Each generated history is run with and without --group-by/--merge; the collection must be exactly one row built from the rows the ungrouped pipeline prints (first-seen key order, arrival order, empty collection on no rows); a quarter of the units deliver the records as 1-3 files; duplicate-named selections, a column shadowing the key's member name, structurally colliding rows; behind --unique (no sort, no limits) the rows must be the first occurrences of the rows without it.",
             "The group key is read from the printed row (pipelines print the input or select .g=g); text output of a collection is its concise JSON.", "5 C09"),
     "C10": ("exploration", "runtime monitoring: differential oracle (--unique run vs non-unique run) with equality observed from jawk's own = function and checked against the documented equality",
             "Sequences over a universe of equal spellings are run with/without --unique; pairwise equality of the distinct rows is observed in a companion run of (= a b) and must agree with the model; the unique run must keep exactly first occurrences.",
             "Rows are identified by their printed one-line text; -0, member-order permutations and |n| >= 2^53 are outside the property's domain.", "5 C10"),
     "C14": ("exploration", "runtime monitoring at the read boundary: bytes pulled from an instrumented endless reader / FIFO (bounded-progress restatement of termination)",
-            "jawk::go is given an input that never ends; the monitor counts bytes pulled and fails the run if the reader's cap is reached or more than 64 KiB are pulled past the value that produces row S+T (located by finite unlimited runs of the same build); tails either keep qualifying or never produce a row again (filtered out / duplicates), values separated by LF, CRLF, space, tab or nothing.",
+            "jawk::go is given an input that never ends; the monitor counts bytes pulled and fails the run if the reader's cap is reached or more than 64 KiB are pulled past the value that produces row S+T (located by finite unlimited runs of the same build); tails either keep qualifying or never produce a row again (filtered out / duplicates), values separated by LF, CRLF, space, tab or nothing; the finite part also as a file (plain, or in a nested directory of a directory argument) in front of the endless FIFO, or in front of a FIFO nobody writes to (which must not be opened); a filter that triggers a process outliving the run.",
             "Termination on unbounded input is not decidable by a finite run; it is restated as 'returns Ok having pulled a bounded number of bytes'. Decided in bytes, never in wall-clock time (the 30 s watchdog only yields inconclusive).", "5 C14"),
     "C18": ("exploration", "runtime monitoring at the boundary: Result, bytes written to stdout, stdin-factory invocations and FIFO-open detection for single-fault corruptions of valid configurations",
             "Valid generated configurations (checked to be accepted) are corrupted by exactly one operator in one option position; the real parser/validator runs and the monitor observes that nothing was written, stdin was never requested and an input FIFO was never opened before the error.",
             "Each corruption is invalid by the documented grammar (pinned function table for arities); clap rejections count as early rejections.", "5 C18"),
     "C20": ("exploration", "runtime monitoring of the real executable as a child process (stdout/stderr/exit status), differential against the in-process run of the same build; failing sinks (closed pipe, /dev/full)",
-            "The release binary built from the working tree is spawned on generated inputs under all policies, valid and invalid configurations and three kinds of stdout; streams and exit status are compared with the in-process reference and the exit status also with the documented outcome (a valid configuration fails only under --on-error=panic on malformed input).",
+            "The release binary built from the working tree is spawned on generated inputs under all policies, valid and invalid configurations and three kinds of stdout; streams and exit status are compared with the in-process reference and the exit status also with the documented outcome (a valid configuration fails only under --on-error=panic on malformed input); inputs that cannot be read (stdin = a directory, missing / unreadable file, UNIX socket) must fail with a message, readable inputs reached through links and nested directories must succeed with the plain file's rows; rows of 3-5 KB in 20 % of the units.",
             "The in-process run of the same library is the reference for stream contents; process-level behaviour (which fd, exit status, lost output) is decided here, success/failure also against the documented rule.", "5 C20"),
     "C05": ("exploration", "runtime monitoring: panic hook + catch_unwind + process-death + watchdog-with-isolated-confirmation around the real jawk::go; exhaustive small byte strings in the driver; ASan / valgrind / Miri shards in the thorough tier",
-            "Exhaustive over all byte strings up to length 4 (quick, plus a 1/8 shard of length 5) or 6 (thorough) over the 24-byte JSON alphabet; seeded mutations of valid streams up to 4 KiB; generated (50 % ill-typed) expressions with multi-byte characters at chosen offsets and boundary numeric arguments in every option position; a boundary matrix (numeric and number-as-string functions over 23 extreme numbers / 24 extreme decimal strings, string functions over empty and one-character strings); release and debug (overflow-checking) builds; driver processes under a 6 GiB address-space cap so that unbounded allocation ends as an attributed abort.",
+            "Exhaustive over all byte strings up to length 4 (quick, plus a 1/8 shard of length 5) or 6 (thorough) over the 24-byte JSON alphabet; seeded mutations of valid streams up to 4 KiB; generated (50 % ill-typed) expressions with multi-byte characters at chosen offsets and boundary numeric arguments in every option position; a boundary matrix (numeric and number-as-string functions over 23 extreme numbers / 24 extreme decimal strings, string functions over empty and one-character strings); expressions nested 20-64 deep built from one wrapper; exec/trigger with a fixed list of harmless commands (children that fill either pipe, die by signal, outlive the run); release and debug (overflow-checking) builds; driver processes under a 6 GiB address-space cap so that unbounded allocation ends as an attributed abort.",
             "Only the explored inputs/expressions are covered; non-termination is restated as no return within 20 s confirmed by a 60 s isolated re-run; resource exhaustion (range/collections > 10^4, nesting > 64) is out of the property's domain.", "5 C05, 6"),
-    "C11": ("exploration", "runtime monitoring: metamorphic oracle on stdout bytes (out(A.B) = out(A).out(B), also B.A and A.A) for generated stateless pipelines",
+    "C11": ("exploration", "runtime monitoring: metamorphic oracle on stdout bytes (out(A.B) = out(A).out(B), also B.A and A.A) for generated stateless pipelines (also under --only-objects-and-arrays with top-level scalars between the records)",
             "Five real runs per generated (pipeline, A, B); pure byte comparison, no model; expressions from the full generated grammar, all output styles, regex cache sizes 0/1/2.",
             "Runs that fail for configuration reasons or panic are skipped and counted (C18/C05).", "5 C11"),
     "C12": ("exploration", "runtime monitoring: metamorphic oracle inside one run (bound form vs manually substituted form as paired columns; same expression in several --select positions)",
-            "Bindings (set, define, --set variable/macro) are evaluated next to their substituted forms, usually inside a nested input so that ^ crosses the binding; the same expression is also placed in 2-4 selects, also after --split-by; pipes (| a b1..bk ^^..) must yield the value of the corresponding stage prefix (identity-like stages included); a --set macro reading a variable bound at the place of use must follow that binding; 3 % of the units run 700-2000 sparse records first.",
+            "Bindings (set, define, --set variable/macro) are evaluated next to their substituted forms, usually inside a nested input so that ^ crosses the binding; the same expression is also placed in 2-4 selects, also after --split-by; pipes (| a b1..bk ^^..) must yield the value of the corresponding stage prefix (identity-like stages included); a --set macro reading a variable bound at the place of use must follow that binding; a --set binding used in --split-by/--filter/--sort-by/--group-by against the value written out; /name/ references inside set/define bodies; 3 % of the units run 700-2000 sparse records first.",
             "Substitution is performed on the AST by the harness; the generator guarantees macro bodies without free macro references; pipes vs the full model are C04's part (here: the parent chain of a pipe against its own stage prefixes).", "5 C12"),
     "C13": ("exploration", "runtime monitoring: metamorphic oracles between runs (select vs filter/sort-by/group-by/split-by/macro position; canonical vs alias/separator/sugar spelling; regex cache sizes 0/1/2/64)",
-            "The same generated expression is used in all five option positions and in all spellings (80/80 aliases of pure functions exercised per quick run) and regex-heavy histories are run under four cache sizes with hook-observed hits/misses/evictions; position comparisons also run on the elements of a split record with expressions that reach ^, with only a low-cardinality column selected, and with a macro whose variable is bound at the place of use.",
+            "The same generated expression is used in all five option positions and in all spellings (80/80 aliases of pure functions exercised per quick run) and regex-heavy histories are run under four cache sizes with hook-observed hits/misses/evictions; position comparisons also run on the elements of a split record with expressions that reach ^, with only a low-cardinality column selected, and with a macro whose variable is bound at the place of use; the records in the opposite order must give the same values in the opposite order.",
             "Relations between runs of the same build only; a defect that affects all positions identically is C04's business.", "5 C13"),
     "C04": ("exploration", "runtime monitoring: reference-model oracle (Python evaluator written from the function documentation, re-validated against the tree's inline examples at run time) applied to --select columns of real runs",
             "Every generated expression is evaluated by the real code on generated inputs and by the reference evaluator on the same AST; each column must equal the model's value or be absent exactly when the model says nothing. All 108 pure functions are targeted in turn; all aliases via spelling variants.",
